@@ -14,6 +14,11 @@ import BtcVerif.Proofs.Alloc
 import BtcVerif.Proofs.ParsersNoPanic
 import BtcVerif.Proofs.Accessors
 import BtcVerif.Props.C11
+import BtcVerif.Props.C06
+import BtcVerif.Props.C08
+import BtcVerif.Props.C10
+import BtcVerif.Props.C14
+import BtcVerif.Proofs.AddressNoPanic
 import BtcVerif.Gen.Constants
 
 namespace BtcVerif.Props.C17
@@ -33,6 +38,20 @@ theorem decompile_no_panic (s : Bytes) : decompile s ≠ .panic := Proofs.Script
 theorem stackify_no_panic (s : Bytes) : stackify s ≠ .panic := stackify_ne_panic s
 theorem strip_no_panic (s : Bytes) (op : UInt8) : stripOpCode s op ≠ .panic := Proofs.Script.strip_ne_panic s op
 theorem der_no_panic (bs : Bytes) : (BtcVerif.Model.DER.decode bs).isPanic = false := BtcVerif.Props.C11.der_no_panic bs
+
+/-! the text parsers and the public-key parser (theorems owned by C06, C08, C09, C10, C14) -/
+theorem base58_no_panic (s : Bytes) : Base58.decode s ≠ .panic := BtcVerif.Props.C08.b58_no_panic s
+theorem base58check_no_panic (ck : Bytes → Bytes) (s : Bytes) : Base58Check.decode ck s ≠ .panic :=
+  BtcVerif.Props.C08.b58c_no_panic ck s
+theorem bech32_no_panic (s : Bytes) : Bech32.decode s ≠ .panic := BtcVerif.Props.C08.no_panic s
+theorem address_no_panic (hs : Address.Hashes) (net : Address.Network) (s : Bytes) :
+    Address.decode hs net s ≠ .panic := Address.decode_ne_panic hs net s
+theorem wif_no_panic (ck : Bytes → Bytes) (s : Bytes) : Wif.decode ck s ≠ .panic :=
+  BtcVerif.Props.C10.wif_no_panic ck s
+theorem xkey_no_panic (ck : Bytes → Bytes) (pubOk : Bytes → Bool) (s : Bytes) :
+    XKey.deserialize ck pubOk s ≠ .panic := BtcVerif.Props.C10.xkey_no_panic ck pubOk s
+theorem mnemonic_no_panic (csByte : Bytes → UInt8) (ws : List Bytes) :
+    BtcVerif.Props.C14.decodeW csByte ws ≠ Outcome.panic := (BtcVerif.Props.C14.bip39_no_panic csByte [] ws).2
 
 /-! ### accessors of decoded values are total: sizes are plain numbers, serialisation of a decoded
     transaction succeeds -/
